@@ -586,13 +586,13 @@ int main(int argc, char** argv) {
 	KS.init(g_kindlen, g_kindlen == g_maxlen ? g_last_alpha : std::vector<int>());
 	LF = long_family(true);
 	// structured family "whatever precedes the textures folder goes": X + "\textures\" + Y for every token string X of
-	// length 1..3 and Y in {"", "a"}; appended to the long family (texture-set slots, all configurations)
+	// length 1..3 and Y in {"", "a", "a\\textures\\a"}; appended to the long family (texture-set slots, all configurations)
 	const size_t prefix_family_begin = LF.size();
 	{
 		TokenSpace PS;
 		PS.init(3, {});
 		for (uint64_t g = 1; g < PS.total(); g++)
-			for (const char* y : {"", "a"}) LF.push_back(PS.at(g) + "\\textures\\" + y);
+			for (const char* y : {"", "a", "a\\textures\\a"}) LF.push_back(PS.at(g) + "\\textures\\" + y); // the last one: the folder name occurs twice
 	}
 	const bool with_long = A.geti("long", 1) != 0;
 
